@@ -6,6 +6,7 @@ import ErgoModel.Json
 import ErgoModel.Path
 import ErgoModel.Url
 import ErgoModel.Program
+import ErgoModel.LockFile
 import ErgoModel.Render
 import ErgoModel.Codec
 import ErgoModel.Input
@@ -77,6 +78,19 @@ def handle (j : Json) : Json :=
       | .lockOk => "lockOk" | .lockBusy => "lockBusy" | .read => "read" | .write => "write" | .noWrite => "noWrite" | .unlock => "unlock"
     Json.mkObj [("writer", Ergo.Program.writerOK prog), ("busy", Ergo.Program.busyOK prog), ("reader", Ergo.Program.readerOK prog),
       ("abstract", Json.arr ((Ergo.Program.abstract prog).map fun a => Json.str (absStr a)).toArray)]
+  | "lockprog" =>
+    -- T3: one process's calls on the lock file (tokens of vlib/strace.lock_calls) → the automaton of ErgoModel.LockFile
+    let callOf (t : String) : Ergo.LockFile.LCall :=
+      match t with
+      | "open+" => .openRO true | "open-" => .openRO false | "stat+" => .stat true | "stat-" => .stat false
+      | "creat" => .creat | "flock+" => .flockEx true | "flock-" => .flockEx false | "unlock" => .flockUn
+      | _ => .bad
+    let cs := (strs j "calls").map callOf
+    let kindStr : Ergo.LockFile.Kind → String
+      | .start => "start" | .missing => "missing" | .creating => "creating" | .ensured => "ensured" | .opened => "opened" | .locked => "locked"
+      | .done true => "done(ran)" | .done false => "done(refused)"
+    Json.mkObj [("ok", Ergo.LockFile.acquireOK cs),
+      ("end", match Ergo.LockFile.runCalls cs with | some k => Json.str (kindStr k) | none => Json.null)]
   | "view" =>
     -- the JSON values of `list` / `show` for a log
     match replay ((arr j "events").map eventOf) with
